@@ -216,4 +216,7 @@ pub fn run(ctx: &Ctx) {
         crate::checks::c08::prove_case_strategy,
         crate::checks::c08::oracle_prove_honest_full,
     );
+    ctx.explore("perm-programs", crate::checks::pp::RULE_PROVE, ctx.tier.pick(400, 20_000),
+        crate::checks::pp::strategy, |c| crate::checks::pp::oracle_prove(c, "C10/perm-programs"));
+    ctx.replay_known("perm-programs", |c: &crate::checks::pp::Case| crate::e1::without_exclusions(|| crate::checks::pp::oracle_prove(c, "C10/perm-programs")));
 }
